@@ -337,7 +337,8 @@ pub fn run(ctx: &Ctx) {
                 let nc = rng.range(1, 4);
                 for k in 0..nc {
                     if k > 0 {
-                        p.push(PC::N('/'));
+                        // a quoted slash separates components just like an unquoted one
+                        p.push(if rng.chance(20) { PC::L('/') } else { PC::N('/') });
                     }
                     let mut c = *rng.pick(&comps);
                     // never climb above the tree root (on the real system that is the rest of
